@@ -159,7 +159,7 @@ PROPS = {
         "level": "other",
         "rules": [("CP", 4, has("cached_semantic_hash:sign", "check_cached_hash_and_neg")), ("IM", 3, has("IM5:semantic_hash")),
                   ("NB", 33, None), ("IC", 4, has("create_semantic_hash_map")), ("GL", 5, has("GL7")),
-                  ("CP", 3, has("decision_nnf::builder::DecisionNNFBuilder::cond_helper")), ("SE", 4, None)],
+                  ("CP", 3, has("decision_nnf::builder::DecisionNNFBuilder::cond_helper")), ("SE", 11, None)],
         "explanation": "Hash values follow the pointer's sign (complemented -> negate(hash of the regular pointer)) and a node "
                        "found under the negated hash is returned complemented, in both semantic builders (CP-hash); the per-node "
                        "hash cache has one writer (IM5); field arithmetic stays in range for every exported prime (NB); hash "
